@@ -341,6 +341,10 @@ inductive Op
   | rename (id : Nat) (name : Str)
   /-- `user set secure`: flip the flag, `setUser` -/
   | secure (id : Nat) (b : Bool)
+  /-- `user hostmask remove … all`: `user.hostmasks.clear()`, `setUser` -/
+  | clearHosts (id : Nat)
+  /-- the second half of `user changename`: `user.name = name`, `setUser` (no lookup of the new name) -/
+  | setName (id : Nat) (name : Str)
   /-- users.conf loader: `setUser(fresh record)`; on DuplicateHostmask drop its masks and retry -/
   | load (id : Nat) (name : Str) (secure : Bool) (masks : List Str)
   | delUser (id : Nat)
@@ -447,6 +451,17 @@ def step (st : St) : Op → St × Out
       | .error e => (g.1, .err e)
   | .secure id b => withUser st id fun u =>
       let u1 := { u with secure := b }
+      let st1 := { st with db := st.db.putUser u1 }
+      let s := setUser st1 u1
+      (s.1, outOfUnit s.2)
+  | .clearHosts id => withUser st id fun u =>
+      let u1 := { u with hostmasks := [] }
+      let st1 := { st with db := st.db.putUser u1 }
+      let s := setUser st1 u1
+      (s.1, outOfUnit s.2)
+  | .setName id name => withUser st id fun u =>
+      if hasLineBreak name then (st, .err .value) else
+      let u1 := { u with name := name }
       let st1 := { st with db := st.db.putUser u1 }
       let s := setUser st1 u1
       (s.1, outOfUnit s.2)
